@@ -143,6 +143,7 @@ def value_cases(rnd, thorough, tmp):
     for T, islist in plan:
         tn = T + ("[]" if islist else "")
         D = gen.desc_for(tn, extra=(("string", "tail"),))
+        DKW = gen.desc_for(tn, extra=(("string", "from"),))     # a Python keyword as field name selects the OTHER generated class template
         extra = gen.random_values(T, rnd, 200 if thorough else 6) if not islist else [("rndlist", v) for _, v in gen.random_values(T, rnd, 20 if thorough else 2)]
         for label, v in list(vc[T]) + extra:
             if islist and label in ("len65535", "len65536", "len255", "len256"):
@@ -152,6 +153,7 @@ def value_cases(rnd, thorough, tmp):
                 val = [v] * rnd.choice([0, 1, 15, 16, 17, 40])          # array header classes: fixarray / array16
             try:
                 rec = D(val, "t", _source="s", _classification=None, _generated=dt.datetime(2020, 1, 1, 1, 1, 1, 5, tzinfo=gen.TZ530))
+                reckw = DKW(val, "", _source="", _classification="", _generated=dt.datetime(2020, 1, 1, 1, 1, 1, 5, tzinfo=gen.TZ530)) if label not in ("rnd", "rndlist") or rnd.random() < 0.3 else None
             except Exception:
                 continue
             fv = getattr(rec, "f")
@@ -159,25 +161,30 @@ def value_cases(rnd, thorough, tmp):
                 cs = ([codec_class(T, x) for x in fv] if fv is not None else []) if islist else [codec_class(T, fv)]
             else:
                 continue
-            before = obs_key(rec)
-            for via in ("lowlevel", "path"):
+            for via in ("lowlevel", "path", "lowlevel-kw"):
+                crec, cD = rec, D
+                if via == "lowlevel-kw":
+                    if reckw is None:
+                        continue
+                    crec, cD = reckw, DKW
+                before = obs_key(crec)
                 c = {"kind": "value", "T": T, "islist": islist, "cs": cs, "label": label, "via": via, "modelled": not any(x.startswith("other") or x == "?" for x in cs), "identical": False, "out": [], "tree": {"f": "NIL"}, "frame": {"f": "NIL"},
                      "frame_is_record": False, "hash_ok": False, "ref_decode_ok": False, "impl_decodes_ref_ok": False, "exc": "none"}
                 try:
-                    if via == "lowlevel":
+                    if via.startswith("lowlevel"):
                         b = io.BytesIO()
                         w = RecordStreamWriter(b)
-                        w.write(rec)
+                        w.write(crec)
                         data = b.getvalue()
                         w.fp = None
                         back = list(RecordStreamReader(io.BytesIO(data)))
                     else:
                         p = os.path.join(tmp, "v.records")
                         with RecordWriter(p) as w:
-                            w.write(rec)
+                            w.write(crec)
                         data = open(p, "rb").read()
                         back = list(RecordReader(p))
-                    c["identical"] = len(back) == 1 and obs_key(back[0]) == before and obs_key(rec) == before
+                    c["identical"] = len(back) == 1 and obs_key(back[0]) == before and obs_key(crec) == before
                     bv = getattr(back[0], "f") if back else None
                     c["out"] = ([codec_class(T, x) for x in bv] if bv is not None else []) if islist else [codec_class(T, bv)]
                 except Exception as e:
@@ -195,11 +202,11 @@ def value_cases(rnd, thorough, tmp):
                     dec = rc.decode_stream(data)
                     desc_fr = [d for d in dec if d[0] == "DESC"][0]
                     rec_fr = [d for d in dec if d[0] == "REC"][0]
-                    c["hash_ok"] = tuple(rec_fr[1]) == (desc_fr[1], rc.descriptor_hash(desc_fr[1], desc_fr[2])) and desc_fr[1] == D.name and tuple(desc_fr[2]) == tuple(D.get_field_tuples())
-                    c["ref_decode_ok"] = repr_eq(rec_fr, canon(rec))
+                    c["hash_ok"] = tuple(rec_fr[1]) == (desc_fr[1], rc.descriptor_hash(desc_fr[1], desc_fr[2])) and desc_fr[1] == cD.name and tuple(desc_fr[2]) == tuple(cD.get_field_tuples())
+                    c["ref_decode_ok"] = repr_eq(rec_fr, canon(crec))
                     # the reverse direction: the same record encoded by the REFERENCE encoder, read by the implementation
-                    cn = canon(rec)
-                    ref_bytes = rc.header_frame() + rc.descriptor_frame(D.name, D.get_field_tuples()) + rc.frame(to_ref(cn))
+                    cn = canon(crec)
+                    ref_bytes = rc.header_frame() + rc.descriptor_frame(cD.name, cD.get_field_tuples()) + rc.frame(to_ref(cn))
                     back2 = list(RecordStreamReader(io.BytesIO(ref_bytes)))
                     c["impl_decodes_ref_ok"] = len(back2) == 1 and obs_key(back2[0]) == before
                 except Exception as e:
@@ -212,8 +219,19 @@ def value_cases(rnd, thorough, tmp):
 def stream_cases(rnd, n, tmp):
     from flow.record import RecordReader, RecordStreamReader, RecordStreamWriter, RecordWriter
 
+    from flow.record import RecordDescriptor
+
     cases = []
-    for recs in gen.sample_streams(rnd, n, (1, 9)):
+    P = RecordDescriptor("s/poison", [("dictlist", "dl"), ("string", "x")])
+    for si, recs0 in enumerate(gen.sample_streams(rnd, n, (1, 9))):
+        # every third sequence contains a write that FAILS while packing the first record of a new type (its descriptor
+        # has already been announced), followed by good records of that type: the failed record is not part of what was written
+        plan = [(r, True) for r in recs0]
+        if si % 3 == 0:
+            k = rnd.randint(0, len(plan))
+            plan[k:k] = [(P([{"a": {1, 2}}], "bad", _generated=gen.GEN), False), (P([{"a": 1}], "good1", _generated=gen.GEN), True)]
+            plan.append((P([], "good2", _generated=gen.GEN), True))
+        recs = [r for r, ok in plan if ok]
         written = [obs_key(r) for r in recs]
         for via in ("lowlevel", "path", "pathgz"):
             c = {"kind": "stream", "via": via, "modelled": True, "n_written": len(recs), "n_read": -1, "order_ok": False, "all_identical": False, "frames": [], "hash_ok": False, "ref_decode_ok": False, "exc": "none",
@@ -222,16 +240,24 @@ def stream_cases(rnd, n, tmp):
                 if via == "lowlevel":
                     b = io.BytesIO()
                     w = RecordStreamWriter(b)
-                    for r in recs:
-                        w.write(r)
+                    for r, ok in plan:
+                        try:
+                            w.write(r)
+                        except Exception:
+                            if ok:
+                                raise
                     data = b.getvalue()
                     w.fp = None
                     back = list(RecordStreamReader(io.BytesIO(data)))
                 else:
                     p = os.path.join(tmp, "s.records" + (".gz" if via == "pathgz" else ""))
                     with RecordWriter(p) as w:
-                        for r in recs:
-                            w.write(r)
+                        for r, ok in plan:
+                            try:
+                                w.write(r)
+                            except Exception:
+                                if ok:
+                                    raise
                     raw = open(p, "rb").read()
                     import gzip
 
